@@ -209,6 +209,7 @@ impl<'a, O: Clone, V: Visitor<'a, A, O>, A: Acceptor<'a>> iter::Iterator for Ite
     type Item = (&'a A, State<O>);
 
     fn next(&mut self) -> Option<(&'a A, State<O>)> {
+        crate::verif_point("visitor::next");
         let acceptor = self.stack.pop()?;
         match self.state.get(&acceptor)? {
             // Get the status of the current acceptor
